@@ -151,13 +151,25 @@ def main():
         out["function"]["slice"] = C.slice_note
         if C.finite is not None:
             # exhaustive exact decision over a finite domain read from the AST (level: proved-finite)
-            for oid, ok, detail in C.finite(reg):
+            for rec in C.finite(reg):
+                oid, ok, detail = rec[0], rec[1], rec[2]
+                backend = rec[3] if len(rec) > 3 else "exact-finite"
                 out["obligations"].append({"id": "%s:%s" % (C.short, oid), "kind": "finite", "line": getattr(fnode, "lineno", 1),
                                            "verdict": "proved" if ok else "refuted", "paths": 1, "solver_s": 0.0,
-                                           "backend": {"exact-finite": 1}, "detail": detail})
+                                           "backend": {backend: 1}, "detail": detail})
                 if not ok:
-                    out["refutations"].append({"how": "exact-finite", "failed": [oid], "args": {"__dict__": []},
-                                               "outcome": str(detail), "finite": True})
+                    rec = {"how": backend, "failed": [oid], "args": {"__dict__": [["finite_obligation", oid]]},
+                           "outcome": str(detail), "finite": True}
+                    if C.finite_native is not None:
+                        try:
+                            bad, text = C.finite_native(oid)
+                        except Exception as e:
+                            bad, text = False, "native replay failed: %s" % e
+                        rec["native"] = text
+                        if not bad:
+                            rec["failed"] = []
+                            rec["unconfirmed"] = [oid]
+                    out["refutations"].append(rec)
             out["cover"]["pre_native_samples"] = 1
             out["wall_s"] = round(time.time() - t0, 3)
             print(json.dumps(out))
